@@ -2,7 +2,7 @@ SPEC = {
     'id': 'C02',
     'harness': 'hC02',
     'coq_dir': 'C02',
-    'claimed': False,
+    'claimed': True,
     'theorems': [
         'C02_hash_denotes_tree', 'C02_set_refines_pure',
         'C02_root_deterministic', 'C02_root_deterministic_state', 'C02_root_cfg_independent',
